@@ -270,7 +270,18 @@ func runC15(t *fw.T) {
 			continue
 		}
 		// a printer may or may not write the closing braces of blocks that the (tolerantly parsed) source left open
+		// (token positions are compared only when the output's significant tokens ARE the source's, in order - a printer that
+		// drops or adds tokens elsewhere, e.g. redundant parentheses, is compared by comment text and order only)
 		sameToks := len(outToksF) == len(srcToksF) || len(outToksF) == len(srcToksF)+rd.CutBraces
+		for i := 0; sameToks && i < len(outToksF); i++ {
+			if i < len(srcToksF) {
+				a, b := outToksF[i], srcToksF[i]
+				// literals may be re-spelled (quote style, escapes, radix case): same kind is enough here
+				sameToks = a.Kind == b.Kind && (a.Kind == reflex.Str || a.Kind == reflex.Num || a.Kind == reflex.Tpl || a.Text == b.Text)
+			} else {
+				sameToks = outToksF[i].Text == "}"
+			}
+		}
 		if !sameToks {
 			t.Inconclusive("token count of output differs from source (printer adds/removes tokens): comment placement compared by text only", rd.Src)
 		}
